@@ -3,5 +3,6 @@ CONSTANTS
   NMods = 3
   Choices = {1, 2, 4, 5, 6}
   Splits = {0, 2}
+  Modes = {"plain", "share", "twice"}
 INVARIANT Emit1
 CHECK_DEADLOCK FALSE
